@@ -41,37 +41,43 @@ def natOf (base : Nat) (ds : Str) : Nat := ds.foldl (fun a c => a * base + digit
 
 def signed (neg : Bool) (n : Nat) : Int := if neg then -(n : Int) else (n : Int)
 
-/-- mirrors pywbem/_utils.py: BINARY_VALUE `^([+\-]?(?:[0-1]+))B\Z` (IGNORECASE) and `int(m.group(1), 2)` -/
-def matchBinary (s : Str) : Option Int :=
-  let (neg, r) := splitSign s
+/-- body of BINARY_VALUE after the sign: `[0-1]+` then `B` (IGNORECASE) -/
+def binaryBody (neg : Bool) (r : Str) : Option Int :=
   match r.getLast? with
   | none => none
   | some b =>
     if (b == 'b' || b == 'B') && !r.dropLast.isEmpty && r.dropLast.all isBin
     then some (signed neg (natOf 2 r.dropLast)) else none
 
-/-- mirrors pywbem/_utils.py: OCTAL_VALUE `^[+\-]?0(?:[1-7]*)\Z` and `int(value_str, 8)` -/
-def matchOctal (s : Str) : Option Int :=
-  let (neg, r) := splitSign s
-  match r with
-  | '0' :: ds => if ds.all isOct then some (signed neg (natOf 8 ds)) else none
-  | _ => none
+/-- mirrors pywbem/_utils.py: BINARY_VALUE `^([+\-]?(?:[0-1]+))B\Z` (IGNORECASE) and `int(m.group(1), 2)` -/
+def matchBinary (s : Str) : Option Int := binaryBody (splitSign s).1 (splitSign s).2
 
-/-- mirrors pywbem/_utils.py: DECIMAL_VALUE `^[+\-]?(?:0|[1-9][0-9]*)\Z` and `int(value_str)` -/
-def matchDecimal (s : Str) : Option Int :=
-  let (neg, r) := splitSign s
-  match r with
-  | ['0'] => some 0
-  | d :: ds => if isPos d && ds.all isDec then some (signed neg (natOf 10 (d :: ds))) else none
+/-- body of OCTAL_VALUE after the sign: `0(?:[1-7]*)` -/
+def octalBody (neg : Bool) : Str → Option Int
+  | c :: ds => if c = '0' ∧ ds.all isOct then some (signed neg (natOf 8 ds)) else none
   | [] => none
 
-/-- mirrors pywbem/_utils.py: HEX_VALUE `^[+\-]?0X(?:[0-9A-F]+)\Z` (IGNORECASE) and `int(value_str, 16)` -/
-def matchHex (s : Str) : Option Int :=
-  let (neg, r) := splitSign s
-  match r with
-  | '0' :: x :: ds =>
-    if (x == 'x' || x == 'X') && !ds.isEmpty && ds.all isHex then some (signed neg (natOf 16 ds)) else none
+/-- mirrors pywbem/_utils.py: OCTAL_VALUE `^[+\-]?0(?:[1-7]*)\Z` and `int(value_str, 8)` -/
+def matchOctal (s : Str) : Option Int := octalBody (splitSign s).1 (splitSign s).2
+
+/-- body of DECIMAL_VALUE after the sign: `(?:0|[1-9][0-9]*)` -/
+def decimalBody (neg : Bool) : Str → Option Int
+  | d :: ds =>
+    if d = '0' ∧ ds = [] then some 0
+    else if isPos d ∧ ds.all isDec then some (signed neg (natOf 10 (d :: ds))) else none
+  | [] => none
+
+/-- mirrors pywbem/_utils.py: DECIMAL_VALUE `^[+\-]?(?:0|[1-9][0-9]*)\Z` and `int(value_str)` -/
+def matchDecimal (s : Str) : Option Int := decimalBody (splitSign s).1 (splitSign s).2
+
+/-- body of HEX_VALUE after the sign: `0X(?:[0-9A-F]+)` (IGNORECASE) -/
+def hexBody (neg : Bool) : Str → Option Int
+  | z :: x :: ds =>
+    if z = '0' ∧ (x = 'x' ∨ x = 'X') ∧ ds ≠ [] ∧ ds.all isHex then some (signed neg (natOf 16 ds)) else none
   | _ => none
+
+/-- mirrors pywbem/_utils.py: HEX_VALUE `^[+\-]?0X(?:[0-9A-F]+)\Z` (IGNORECASE) and `int(value_str, 16)` -/
+def matchHex (s : Str) : Option Int := hexBody (splitSign s).1 (splitSign s).2
 
 /-- mirrors pywbem/_utils.py: _integerValue_to_int (order of the alternatives as in the code) -/
 def integerValueToInt (s : Str) : Option Int :=
